@@ -299,18 +299,18 @@ func ruleEosErr(p *Prog, r *RuleResult) {
 		}
 		nret++
 		key := k.key(fname, "return")
-		if !definitelyNil(ret.Results[1]) {
+		if !definitelyNil(rvals(ret)[1]) {
 			// error return: count must be 0 (nothing to consume)
 			r.info(key+" error return", p.IPos(ret))
 			continue
 		}
 		okRet := false
 		for _, e := range zeroCountEdges {
-			if edgeDominates(f, e, b) && isZeroConst(ret.Results[0]) {
+			if edgeDominates(f, e, b) && isZeroConst(rvals(ret)[0]) {
 				okRet = true
 			}
 		}
-		for _, e := range positiveEdges(ret.Results[0]) {
+		for _, e := range positiveEdges(rvals(ret)[0]) {
 			if edgeDominates(f, e, b) {
 				okRet = true
 			}
@@ -351,7 +351,7 @@ func ruleEosErr(p *Prog, r *RuleResult) {
 			}
 			// the non-nil edge returns the pending error and the test dominates the underlying read
 			tb := b.Succs[succ]
-			if ret, ok := tb.Instrs[len(tb.Instrs)-1].(*ssa.Return); ok && fieldVarOfLoad(stripConv(ret.Results[1])) == pend && isZeroConst(ret.Results[0]) && instrDominates(ifi, under) {
+			if ret, ok := tb.Instrs[len(tb.Instrs)-1].(*ssa.Return); ok && fieldVarOfLoad(stripConv(rvals(ret)[1])) == pend && isZeroConst(rvals(ret)[0]) && instrDominates(ifi, under) {
 				okP = true
 				r.ok(fname+" returns a parked read error before touching the source again", p.IPos(ifi))
 			}
@@ -697,7 +697,7 @@ func ruleLifecycle(p *Prog, r *RuleResult) {
 					return nil, nil, false
 				}
 			case *ssa.Call:
-				if x != c {
+				if x != c && !trivialFn(x.Call.StaticCallee(), 0) {
 					return nil, nil, false
 				}
 			}
@@ -719,7 +719,7 @@ func ruleLifecycle(p *Prog, r *RuleResult) {
 		ret, isRet := tb.Instrs[len(tb.Instrs)-1].(*ssa.Return)
 		okRet := isRet && len(ret.Results) == 1
 		if okRet {
-			v := ret.Results[0]
+			v := rvals(ret)[0]
 			okRet = definitelyNil(v)
 			if !okRet {
 				// named result: load of the result cell that was never stored on this path
@@ -766,7 +766,7 @@ func ruleLifecycle(p *Prog, r *RuleResult) {
 				effect = true
 			}
 		}
-		if !isRet || len(ret.Results) != 2 || !isZeroConst(ret.Results[0]) || mayBeNil(ret.Results[1], 0) || effect {
+		if !isRet || len(ret.Results) != 2 || !isZeroConst(rvals(ret)[0]) || mayBeNil(rvals(ret)[1], 0) || effect {
 			r.fail(fname+"#closed-test", p.IPos(ifi), fmt.Sprintf("%s on a closed stream does not immediately return (0, error) without side effects", m[1]))
 		} else {
 			r.ok(fname+": closed stream -> (0, error) at entry, no effect", p.IPos(ifi))
@@ -797,7 +797,7 @@ func ruleLifecycle(p *Prog, r *RuleResult) {
 			continue
 		}
 		tb := b.Succs[succFor(pos, true)]
-		if ret, ok := tb.Instrs[len(tb.Instrs)-1].(*ssa.Return); !ok || len(ret.Results) != 1 || !definitelyNil(ret.Results[0]) {
+		if ret, ok := tb.Instrs[len(tb.Instrs)-1].(*ssa.Return); !ok || len(ret.Results) != 1 || !definitelyNil(rvals(ret)[0]) {
 			continue
 		}
 		found = true
@@ -845,7 +845,7 @@ func ruleBsClosed(p *Prog, r *RuleResult) {
 			if f := p.MethodOpt("bitstream", typ, "Closed"); f != nil && f.Blocks != nil {
 				for _, b := range f.Blocks {
 					if ret, ok := b.Instrs[len(b.Instrs)-1].(*ssa.Return); ok && len(ret.Results) == 1 {
-						if fv := fieldVarOfLoad(ret.Results[0]); fv != nil {
+						if fv := fieldVarOfLoad(rvals(ret)[0]); fv != nil {
 							return fv.Name()
 						}
 					}
@@ -898,7 +898,7 @@ func ruleBsClosed(p *Prog, r *RuleResult) {
 			bad := false
 			for _, b := range f.Blocks {
 				ret, isRet := b.Instrs[len(b.Instrs)-1].(*ssa.Return)
-				if !isRet || !definitelyNil(ret.Results[0]) {
+				if !isRet || !definitelyNil(rvals(ret)[0]) {
 					continue
 				}
 				if instrDominates(st, ret) {
@@ -964,7 +964,7 @@ func ruleBsClosed(p *Prog, r *RuleResult) {
 				case *ssa.Panic:
 					okT = true
 				case *ssa.Return:
-					okT = len(x.Results) > 0 && !mayBeNil(x.Results[len(x.Results)-1], 0)
+					okT = len(x.Results) > 0 && !mayBeNil(rvals(x)[len(x.Results)-1], 0)
 				}
 			}
 		}
